@@ -20,6 +20,7 @@ R5  composite components: every container of sub-components evaluated in calc_va
     gradient use the same coefficient
 R6  layering: atom::apply_force() is called only from the atom-group layer (atom_group::apply_colvar_force,
     group_force_object), which rotates forces back to the laboratory frame and adds the forces on the fitting group
+R12 the winner of a search loop is reset at every evaluation
 R11 value and force of a per-coordinate vector component use the same element <-> coordinate map
 R10 fit gradients are switched off only by components whose value is stationary under the fit (squared deviations)
 R9  a quadratic energy and the force terms next to it share the prefactor
@@ -1144,7 +1145,58 @@ def r11(F, rep):
         raise AnalysisBroken("C01-R11: no component with an explicit element <-> coordinate map found (cartesian expected)")
 
 
+# ------------------------------------------------------------------------------------------------ R12
+def r12(F, rep):
+    rep.rule("C01-R12", "the result of a search belongs to the step that made it: a member that a component assigns the loop "
+                        "variable under a comparison inside a search loop (arg-min over reference permutations / frames), and "
+                        "that its gradient or force code reads, is also assigned before that loop in the same function -- "
+                        "otherwise, on a step where no candidate wins, the gradients are taken against the winner of an "
+                        "earlier step while the value is the current one")
+
+    def walk(n):
+        yield n
+        for c in X.kids(n):
+            if c is not None:
+                yield from walk(c)
+    n = 0
+    for f in F.funcs.values():
+        if "/src/" not in f.file or f.body is None or not f.cls or f.cls not in F.subclasses(CVC, strict=True):
+            continue
+        for w, t in lvalue_writes(f):
+            ts = X.strip(t)
+            if ts["k"] != "MemberExpr" or not X.key(ts, f).startswith("this.") or w.get("op") != "=" or w["k"] != "BinaryOperator":
+                continue
+            loops = [a for a in f.ancestors(w) if a["k"] == "ForStmt"]
+            if not loops:
+                continue
+            L = loops[0]
+            lv = set()
+            if L["c"][0] is not None:
+                for x in walk(L["c"][0]):
+                    if x["k"] == "VarDecl":
+                        lv.add(x.get("d"))
+                    if x["k"] == "BinaryOperator" and x.get("op") == "=" and X.strip(X.kids(x)[0])["k"] == "DeclRefExpr":
+                        lv.add(X.strip(X.kids(x)[0]).get("d"))
+            r = X.strip(X.kids(w)[1])
+            if not (r["k"] == "DeclRefExpr" and r.get("d") in lv):
+                continue
+            inl = {x["i"] for x in walk(L)}
+            lc = L["c"][1]["i"] if L["c"][1] is not None else None
+            if not [g for g in f.cfg.real_guards(w) if g[0] in inl and g[0] != lc]:
+                continue
+            k = X.key(ts, f)
+            n += 1
+            head = L["c"][1] if L["c"][1] is not None else L
+            resets = [w2 for w2, t2 in lvalue_writes(f) if X.key(t2, f) == k and w2 is not w and f.cfg.dominates(w2, head)]
+            rep.add("C01-R12", "%s|%s" % (f.q, X.re_strip(k)), f.loc(w), "%s selects `%s` inside a search loop; it is %s" % (
+                f.q, X.re_strip(k), "assigned before the loop as well" if resets else "NOT reset before the loop: it keeps the winner of an earlier step"), bool(resets),
+                detail="value and gradient refer to different references: the applied forces are not the derivative of the reported value", func=f.q)
+    if n < 1:
+        raise AnalysisBroken("C01-R12: no arg-min selection of a member inside a search loop found (rmsd atomPermutation expected)")
+
+
 def run(F, rep, tier):
+    r12(F, rep)
     r11(F, rep)
     r10(F, rep)
     r9(F, rep)
